@@ -423,6 +423,17 @@ func c05Primary(r *Run, shape string, faulting, nested bool) {
 	case "journal-commit", "journal-first":
 		prog := GenProgram(t, h.ref.N(), h.maxPages, 0)
 		prog.Outcome = OutCommit
+		if h.ref.N() >= 4 && t.Chance(1, 2) {
+			// multi-segment journal: several pages, a spill after the first ones
+			for pg := uint32(1); pg <= min32(h.ref.N(), 5); pg++ {
+				prog.Modify = append(prog.Modify, pg)
+			}
+			prog.SpillAt = []int{t.Range(1, 2)}
+			if t.Chance(1, 2) {
+				prog.SpillAt = append(prog.SpillAt, prog.SpillAt[0]+t.Range(1, 2))
+			}
+			prog.NoSync = false
+		}
 		res := c.WriteTx(prog, h.ref)
 		opOK = res.Outcome == OutCommit
 		if opOK {
